@@ -7,6 +7,7 @@ from ..rateprobe import exc_detail, shape_error
 from ..util import KIND, MODEL_NAMES, build
 
 PROPERTY = "C08"
+PYTEST_PREFIX = "C08/"
 LEVEL = "exploration"
 RULE = ("Contract on the four public operations over the full stated box: 2-8 teams x 1-16 players, mu in +-20beta incl. "
         "all-corner games (largest exponents), sigma in [1e-4beta, 10beta] and sigma=0 when tau>=1e-8beta, every outcome "
